@@ -64,8 +64,8 @@ def gen_cases(ck):
                     tags = sg.Tags()
                     seq, sevs = client(rng, tags, 0, 1, before, behind, [n], [ending], split)
                     merges = list(sg.interleavings([seq, sevs]))
-                    if len(merges) > (6 if quick else 200):
-                        merges = rng.sample(merges, 6 if quick else 200)
+                    if len(merges) > (14 if quick else 200):
+                        merges = rng.sample(merges, 14 if quick else 200)
                     for m in merges:
                         add(sg.with_polls(m, (1 << len(m)) - 1), [0], "one_conn_stream",
                             {"len": n, "ending": ending, "before": before, "behind": behind, "split": split})
@@ -77,12 +77,12 @@ def gen_cases(ck):
             tags = sg.Tags()
             seq0, sev0 = client(rng, tags, 0, 1, 1, 1, [n], [True], "one_burst")
             seq1, sev1 = client(rng, tags, 1, 1, 0, 1, [rng.randrange(0, 4)], [True], rng.choice(["one_burst", "per_frame"]))
-            for _ in range(3 if quick else 30):
+            for _ in range(8 if quick else 30):
                 m = sg.random_merge(rng, [[seq0[0], ["fw", 0, k]] + seq0[1:], sev0, seq1, sev1])
                 mask = rng.choice([(1 << len(m)) - 1, rng.getrandbits(len(m))])
                 add(sg.with_polls(m, mask), [1], "write_failure_at_item", {"len": n, "fail_at_write": k}, failing=[0])
     # (c) random: 1..3 connections, several streams each, random interleaving and polls, some write failures
-    for i in range(420 if quick else 10000):
+    for i in range(1100 if quick else 10000):
         nconn = rng.randrange(1, 4)
         tags = sg.Tags()
         seqs, hyp, failing = [], [], []
